@@ -114,7 +114,7 @@ var c15Cfg = []byte("{}")
 // c15Prepare builds one of the prepared states.
 func c15Prepare(t *rapid.T) (*c15State, func()) {
 	s := &c15State{healthy: map[string]bool{}, corrupt: map[string]bool{}, present: map[string]bool{}, manifests: map[string]bool{}, dirty: map[string]bool{}, uncertain: map[string]bool{}}
-	s.kind = rapid.SampledFrom([]string{"empty", "populated", "populated", "populated-sessions", "read-only", "dir-corrupt-legacy", "mem-over-root"}).Draw(t, "state")
+	s.kind = rapid.SampledFrom([]string{"empty", "populated", "populated", "populated-sessions", "read-only", "dir-corrupt-legacy", "mem-over-root", "manifest-blobs-deleted"}).Draw(t, "state")
 	s.dirStore = rapid.Bool().Draw(t, "dirStore") || s.kind == "dir-corrupt-legacy" || s.kind == "read-only" || s.kind == "mem-over-root"
 	store := config.StoreMem
 	if s.dirStore {
@@ -182,6 +182,14 @@ func c15Prepare(t *rapid.T) (*c15State, func()) {
 		s.dead = append(s.dead, path.Base(lu.Path))
 	}
 	switch s.kind {
+	case "manifest-blobs-deleted":
+		// a client deleted the blobs of the tagged index and of the image through the blob API: the index entries stay
+		for _, d := range []string{ixd, id} {
+			must(doReq(srv, "DELETE", "/v2/r1/blobs/"+d, nil, nil), 202, "blob delete")
+			delete(s.present, d)
+			delete(s.manifests, d)
+		}
+		s.dirty["r1"] = true
 	case "mem-over-root":
 		// the content was written by a directory store; a memory store is now layered over that directory
 		_ = srv.Close()
@@ -448,6 +456,12 @@ func c15Property(t *rapid.T, st *Stats) {
 				fail("code-name-unknown", "repository-level failure (corrupt index.json): body %q, want code NAME_UNKNOWN", trunc(r.body, 160))
 			}
 			classes["cond:corrupt-repo"] = true
+		case rt.endpoint == "referrers" && q.method == "GET" && !reserved && !corruptTarget && r.code == 400:
+			// the only refusal of a referrers listing: a page of a cached listing was asked for by an unparsable digest
+			if !hasCode("DIGEST_INVALID") {
+				fail("code-digest-invalid", "referrers request refused with 400 and body %q, want code DIGEST_INVALID (cache parameter is not a digest)", trunc(r.body, 160))
+			}
+			classes["cond:cache-digest-invalid"] = true
 		case rt.endpoint == "blobs" && get && !reserved && !corruptTarget:
 			switch {
 			case !digOK && !strings.Contains(rt.arg, ":"):
